@@ -169,8 +169,8 @@ class ImageBatch(DataTensor):
                         split_grids.append(grids[start:end])
                 return split_grids
         # Functions which reorder or select images along the batch dimension
-        if func in (torch.flip, Tensor.flip, torch.flipud, Tensor.flipud):
-            if func in (torch.flipud, Tensor.flipud):
+        if func in (torch.flip, Tensor.flip, torch.flipud, Tensor.flipud, Tensor.__reversed__):
+            if func in (torch.flipud, Tensor.flipud, Tensor.__reversed__):
                 dims = (0,)
             else:
                 dims = kwargs.get("dims", args[1:])
